@@ -192,13 +192,14 @@ class MetricLineReceiver(MetricReceiver, LineOnlyReceiver):
   delimiter = b'\n'
 
   def lineReceived(self, line):
-    if sys.version_info >= (3, 0):
-      line = line.decode('utf-8')
-
     try:
+      if sys.version_info >= (3, 0):
+        line = line.decode('utf-8')
       metric, value, timestamp = line.strip().split()
       datapoint = (float(timestamp), float(value))
     except ValueError:
+      if isinstance(line, bytes):  # not valid UTF-8
+        line = repr(line)
       if len(line) > 400:
         line = line[:400] + '...'
       log.listener('invalid line received from client %s, ignoring [%s]' %
@@ -220,16 +221,19 @@ class MetricDatagramReceiver(MetricReceiver, DatagramProtocol):
 
   def datagramReceived(self, data, addr):
     (host, _) = addr
-    if sys.version_info >= (3, 0):
-      data = data.decode('utf-8')
 
     for line in data.splitlines():
       try:
+        # decode line by line so that one undecodable line does not spoil the datagram
+        if sys.version_info >= (3, 0):
+          line = line.decode('utf-8')
         metric, value, timestamp = line.strip().split()
         datapoint = (float(timestamp), float(value))
 
         self.metricReceived(metric, datapoint)
       except ValueError:
+        if isinstance(line, bytes):  # not valid UTF-8
+          line = repr(line)
         if len(line) > 400:
           line = line[:400] + '...'
         log.listener('invalid line received from %s, ignoring [%s]' %
